@@ -188,6 +188,33 @@ pub fn after_call(
         }
     }
 
+    // a refusal of a (pre-)vote speaks for the refuser's own term: it must not echo the
+    // requester's (future) term, or a pre-candidate that lost is "told" of a term nobody is in
+    for x in new_msgs {
+        let t = x.get_msg_type();
+        if (t == MessageType::MsgRequestPreVoteResponse || t == MessageType::MsgRequestVoteResponse) && x.reject {
+            m.stats.inc("c16.vote_refusals_emitted");
+            if x.term != post.term {
+                m.violation(
+                    "C16",
+                    "no-term-bump-without-prevote-quorum",
+                    "vote-refusal-carries-a-term-that-is-not-the-refusers".into(),
+                    format!(
+                        "node {} (term {}) refused {:?} of {} with a response carrying term {}",
+                        id,
+                        post.term,
+                        t,
+                        x.to,
+                        x.term
+                    ),
+                    id,
+                    step,
+                );
+                return;
+            }
+        }
+    }
+
     // =============================== C17 ===============================
     // (a) MsgTimeoutNow only to a fully caught-up voter that is the transfer target
     for x in new_msgs {
